@@ -1,5 +1,6 @@
 import FhVerif.Spec.Rfc9112
 import FhVerif.Model.ReqFraming
+import FhVerif.Model.ConnClose
 namespace Fh.Driver
 open Fh Fh.Spec.Rfc
 
@@ -13,11 +14,36 @@ def kvPairs : List Bytes → List (Bytes × Bytes)
   | k :: v :: r => (k, v) :: kvPairs r
   | _ => []
 
+/-- split the args of `connhist` into per-request groups at the marker "R" -/
+def splitReqs : List Bytes → List (List Bytes) → List Bytes → List (List Bytes)
+  | [], acc, cur => (if cur.isEmpty then acc else acc ++ [cur])
+  | a :: rest, acc, cur =>
+    if a == [82] then splitReqs rest (if cur.isEmpty then acc else acc ++ [cur]) [a] else splitReqs rest acc (cur ++ [a])
+
+def connHist (nka : Bool) (maxReqs : Nat) (groups : List (List Bytes)) : String :=
+  let cfg : Fh.Model.LoopCfg := ⟨nka, maxReqs, false⟩
+  let rec go : Nat → List (List Bytes) → List String
+    | _, [] => []
+    | n, g :: rest =>
+      match g with
+      | _ :: [noH11] :: [hc] :: kvs =>
+        match Fh.Model.parseDecision (noH11 != 0) (kvPairs kvs) with
+        | .reject => ["reject"]
+        | .ok _ rc =>
+          let o := Fh.Model.respOut cfg n ⟨rc, noH11 == 0, hc != 0, false⟩
+          let s := s!"{if o.closeHeader then 1 else 0}{if o.keepAliveHeader then 1 else 0}{if o.closedAfter then 1 else 0}"
+          if o.closedAfter then [s] else s :: go (n + 1) rest
+      | _ => ["bad"]
+  ";".intercalate (go 1 groups)
+
 def opsConn (op : String) (a : List Bytes) : Option String :=
   match op, a with
   | "frame", [input] =>
     let (ms, s) := frame input
     some (";".intercalate (ms.map renderMsg ++ ["E " ++ renderStop s]))
+  | "connhist", [nka] :: mr :: rest => do
+    let m ← natOfDec? mr
+    some (connHist (nka != 0) m (splitReqs rest [] []))
   | "reqdecision", [f] :: kvs =>
     match Fh.Model.parseDecision (f != 0) (kvPairs kvs) with
     | .reject => some "reject"
